@@ -37,12 +37,13 @@ theorem owned_recover_of_addressed (L : Lawful ops) (v s : Nat) (S : P) (hS : S 
   · rw [L.pubOf_eq]; exact hx
 
 omit [AddCommGroup P] in
-/-- the two-step object computes the one-step function: `KeyRecoverer::new(keys, R).recover(n, (i,j))` -/
+/-- driver glue (`rfl`; `Recoverer` is a pure record written for the `c09_recover_seq` driver arm): the two-step record computes the
+one-step function `KeyRecoverer::new(keys, R).recover(n, (i,j))`. Not evidence about the Rust object's state. -/
 theorem recoverer_recover (v s : Nat) (R : P) (n i j : Nat) :
     (Recoverer.new ops v s R).recover ops n i j = Monero.recoverKey ops v s R n i j := rfl
 
 omit [AddCommGroup P] in
-/-- … for any number of calls on one object, in any order: the object carries no state besides `(v, s, rv)` -/
+/-- … for any list of calls on one record (driver glue, `rfl`) -/
 theorem recoverer_recoverAll (v s : Nat) (R : P) (qs : List (Nat × Nat × Nat)) :
     (Recoverer.new ops v s R).recoverAll ops qs = qs.map fun q => Monero.recoverKey ops v s R q.1 q.2.1 q.2.2 := rfl
 /-! ### a lawful instance on which the scan computes by `rfl` (satisfiability witness for Props/C09) -/
